@@ -11,7 +11,7 @@ using namespace vf;
 
 static Fields gen(Tape &t) {
   Fields f;
-  LongMode lm(t);
+  LongMode lm(t, true);
   if (lm.on()) f.seti("long", 1);
   GenUri b = g_base(t, /*forceScheme=*/true, SEG_NOPCTDOT);
   int kind = 0;
